@@ -8,13 +8,13 @@ import (
 
 // Properties decided (in part) by the file-protocol analysis.
 var fsRuleSets = map[string][]string{
-	"C04": {"LIST-WRITE", "LIST-HELD", "LIST-VALID", "LIST-CONTENT", "LIST-COMPLETE", "POST-COMMIT-OK", "FAIL-NO-EFFECT", "LOCK-OWN", "UPTODATE-MEANS-EQUAL"},
+	"C04": {"LIST-WRITE", "LIST-HELD", "LIST-VALID", "LIST-CONTENT", "LIST-COMPLETE", "POST-COMMIT-OK", "FAIL-NO-EFFECT", "LOCK-OWN", "UPTODATE-MEANS-EQUAL", "GATE-IDX"},
 	"C05": {"ORDER-TABLE-FIRST", "ORDER-DELETE-LAST", "LIST-CONTENT", "LIST-VALID", "GATE-IDX", "UPTODATE-MEANS-EQUAL", "NAME-FRESH", "HASH-TYPE", "LOCK-OWN", "LOCK-EXCL"},
 	"C06": {"PRE-COMMIT-INVISIBLE", "ORDER-TABLE-FIRST", "ORDER-DELETE-LAST", "LIST-WRITE", "LIST-COMPLETE", "LIST-CONTENT", "LOCK-OWN", "LOCK-EXCL", "GATE-IDX"},
 	"C08": {"LOCK-EXCL", "LOCK-OWN"},
 	"C09": {"LIST-VALID", "UPTODATE-MEANS-EQUAL", "STALE-RELOAD", "STALE-NO-RESIDUE", "FAIL-NO-EFFECT", "GATE-IDX"},
 	"C10": {"READER-OWN", "MERGED-FRESH", "RELOAD-COMPLETE", "NAME-FRESH", "LOCK-OWN", "LOCK-EXCL"},
-	"C16": {"PAIR-LOCK", "PAIR-TMP", "FAIL-NO-EFFECT", "ORDER-DELETE-LAST"},
+	"C16": {"PAIR-LOCK", "PAIR-TMP", "FAIL-NO-EFFECT", "ORDER-DELETE-LAST", "LIST-VALID", "UPTODATE-MEANS-EQUAL"},
 }
 
 // instance floors: rule -> minimum number of operations (entry points and
